@@ -1,0 +1,16 @@
+//go:build verif
+
+package cmpp
+
+import "github.com/valyala/bytebufferpool"
+
+// poisonOnRelease (verification hook, build tag verif): see packet/verif_on.go.
+func poisonOnRelease(b *bytebufferpool.ByteBuffer) {
+	if b == nil {
+		return
+	}
+	full := b.B[:cap(b.B)]
+	for i := range full {
+		full[i] = 0xDD
+	}
+}
